@@ -82,6 +82,12 @@ def aimed_doc(rng, serial):
         else:
             holder[key] = obj(counter)
     root["properties"]["holder"] = holder
+    if rng.random() < 0.7:
+        # object literals with several keys inside default / const / enum (their key order is output)
+        lit = {"zeta": 1, "alpha": [1, {"m": 1, "b": 2, "k": 3}], "mid": {"y": None, "x": True, "w": "s"}, "beta": "b"}
+        root["properties"]["literals"] = {"default": lit, "enum": [lit, {"q": 1, "p": 2, "o": 3}],
+                                          "properties": {"c": {"const": {"n2": 1, "n1": 2, "n3": 3}}}}
+        root["default"] = {"z": 1, "y": 2, "x": 3, "w": 4}
     if rng.random() < 0.5:
         # defaults next to compositions whose members are all trivial (state written here must not leak
         # into documents handled later by the same process)
